@@ -233,7 +233,10 @@ WriteSt(s, q, used, prev, objs) ==
              cost == StCost(prev, p)
          IN IF used + cost > SolBudget
               THEN [q |-> q, objs |-> objs, complete |-> FALSE]
-              ELSE WriteSt(s, Tail(q), used + cost, p, Append(objs, StObj(p, s.frozen[p])))
+              \* (DEV_StaticUsesCurrent is a hypothetical deviation used only to show that Mon_C11 is
+              \*  sensitive: report the current instead of the frozen value)
+              ELSE WriteSt(s, Tail(q), used + cost, p,
+                           Append(objs, StObj(p, IF "StaticUsesCurrent" \in DEV THEN s.cur[p] ELSE s.frozen[p])))
 
 \* Database::write_response_headers: events first; static only if every selected event fitted
 DbWriteResponse(s) ==
